@@ -273,6 +273,13 @@ static void gen_len(tcase *c, const tcfg *cfg, size_t kl, size_t vl, int middle)
 	free(kb);
 	snprintf(c->desc, sizeof c->desc, "L:%s:%zu:%zu:%d", cfg_enc(cfg, 0), kl, vl, middle);
 }
+/* 16-bit separator family: two keys of the 320-key universe over {00,01,fe,ff}, one block each */
+static u5key U16[400]; static size_t nU16;
+static void gen_pair16(tcase *c, const tcfg *cfg, int i, int j) {
+	memset(c, 0, sizeof *c); c->cfg = *cfg; set_pool(c, 0);
+	tcase_add(c, U16[i].b, U16[i].n, 1, 600); tcase_add(c, U16[j].b, U16[j].n, 2, 600);
+	snprintf(c->desc, sizeof c->desc, "P:%s:%d:%d", cfg_enc(cfg, 0), i, j);
+}
 /* level sweep: fixed 3-block table */
 static void gen_level(tcase *c, const tcfg *cfg) {
 	memset(c, 0, sizeof *c); c->cfg = *cfg; set_pool(c, 0);
@@ -294,6 +301,7 @@ static int replay(const char *s) {
 		if (s[0] == 'S' && sscanf(rest, ":%u:%u:%d:m%d", &mask, &vcode, &nvs, &mv) >= 3) { gen_struct(&c, &cfg, poolsz, mask, vcode, nvs, nvs == 3 ? VS_Q : VS_T); c.madvise = mv; }
 		else if (s[0] == 'B' && sscanf(rest, ":%d:%zu:%zu:%zu", &fam, &n, &stem, &vlen) == 4) gen_cadence(&c, &cfg, fam, n, stem, vlen);
 		else if (s[0] == 'L' && sscanf(rest, ":%zu:%zu:%d", &kl, &vl, &middle) == 3) gen_len(&c, &cfg, kl, vl, middle);
+		else if (s[0] == 'P' && sscanf(rest, ":%d:%d", &fam, &middle) == 2) { nU16 = u16_gen(U16); gen_pair16(&c, &cfg, fam, middle); }
 		else return -1;
 	}
 	c.tool = 1;
@@ -378,6 +386,17 @@ int main(int argc, char **argv) {
 			if (!vh_mine(idx++)) continue;
 			tcfg cfg = { 0 }; cfg.comp = comps[ci]; cfg.uselevel = true; cfg.level = LV[li]; cfg.block_size = 1024; cfg.restart = ri ? 2 : 16;
 			gen_level(&c, &cfg); run_case(&c); tcase_free(&c);
+		}
+	} else if (!strcmp(mode, "sep16")) {
+		nU16 = u16_gen(U16);
+		for (size_t i = 0; i < nU16; i++) for (size_t j = i + 1; j < nU16; j++) {
+			size_t d = 0; while (d < U16[i].n && d < U16[j].n && U16[i].b[d] == U16[j].b[d]) d++;
+			if (d < U16[i].n && d < U16[j].n && U16[j].b[d] > U16[i].b[d] + 1) continue;
+			if (!vh_mine(idx++)) continue;
+			if (vh_time_up()) goto done;
+			tcfg cfg = { 0 }; cfg.comp = (i + j) % 3 == 0 ? 3 : 0; cfg.restart = 16; cfg.block_size = 1024; cfg.prefix = (i & 1) ? 13 : 0;
+			gen_pair16(&c, &cfg, (int) i, (int) j); run_case(&c); tcase_free(&c);
+			if (vh_too_many()) goto done;
 		}
 	} else if (!strcmp(mode, "madvise")) {
 		for (int mv = 0; mv < 4; mv++) for (unsigned mask = 0; mask < 512; mask++) {
